@@ -152,7 +152,8 @@ mutual
             injection h with h
             subst h
             have hb := hJ _ _ _ r3 (hP.frags f (fragForName_mem hf)) h3
-            exact AllP.append (AllP.append (walkDirectives_all hP.toValSites cur _ dirs _ _) hb) (AllP.single (hsp _))
+            exact AllP.append (AllP.append (AllP.append (walkDirectives_all hP.toValSites cur _ dirs _ _)
+              (walkDirectives_all hP.toValSites cur _ f.dirs _ _)) hb) (AllP.single (hsp _))
   theorem walkSelections_all (hP : SelSites s d Q P) (cur : Option OperationDef) (J : Jump) (hJ : JumpAll P Q J) :
       ∀ (xs : Selections) (parent : Option Definition) (ws : WS) r, (∀ n ∈ Spec.spreadsOfSels xs, Q n) →
         walkSelections s d cur J parent xs ws = some r → AllP P r.2
